@@ -483,7 +483,7 @@ def tie_prank_obj(rep, m, tier, r):
     L = 4 if tier == "quick" else 5
     seqs = [list(t) for n in range(1, L + 1) for t in itertools.product(OBJ_ALPHABET, repeat=n)]
     if tier == "quick":
-        seqs = seqs[: len(OBJ_ALPHABET) + len(OBJ_ALPHABET) ** 2 + len(OBJ_ALPHABET) ** 3] + r.sample(seqs, 6000)
+        seqs = seqs[: len(OBJ_ALPHABET) + len(OBJ_ALPHABET) ** 2 + len(OBJ_ALPHABET) ** 3] + r.sample(seqs, 4000)
     impl = [impl_prank_obj(s) for s in seqs]
     bad = 0
     if m is not None:
@@ -652,7 +652,7 @@ def classify_prank(ops):
 
 
 def tie_prank_sevm(rep, m, tier, r):
-    n = 700 if tier == "quick" else 12000
+    n = 450 if tier == "quick" else 12000
     cases = [list(c) for c in PRANK_CORPUS]
     for i in range(n):
         cases.append(gen_prank_ops(r, r.choice([3, 5, 8, 12, 20]), allow_console=(i % 4 == 0), two_tx=(i % 9 == 0)))
@@ -927,7 +927,7 @@ def tie_state(rep, m, tier, r):
 
     b = mk_block()
     init_block = [as_int(b.basefee), as_int(b.chainid), as_int(b.coinbase), as_int(b.difficulty), as_int(b.number), as_int(b.timestamp)]
-    n = 500 if tier == "quick" else 6000
+    n = 350 if tier == "quick" else 6000
     cases = [(list(i), list(v)) for i, v in STATE_CORPUS] + [gen_state_case(r, r.choice([2, 4, 8, 14])) for _ in range(n)]
     model = None
     if m is not None:
@@ -1341,7 +1341,7 @@ def run(rep, tier):
             assumptions=ASSUMPTIONS,
             partial=PARTIAL,
             rule="(L1) method sequences on the real Prank object over {prank, prank2, startPrank, startPrank2, stopPrank, lookup(user|0|hevm|svm|console)} x 3 addresses, "
-                 "exhaustive to length 3 (quick; +6000 sampled of length 4) / 5 (thorough), compared with the extracted model after every method (result + object state); "
+                 "exhaustive to length 3 (quick; +4000 sampled of length <= 4) / 5 (thorough), compared with the extracted model after every method (result + object state); "
                  "(L2a) op sequences {prank*, stopPrank, hevm/svm/console call, call/staticcall/create into a fresh contract, return, symbolic branch, second transaction} "
                  "assembled into EVM programs (one contract per entered frame, creations as embedded initcode) and run through SEVM.run / SEVM.run_message; the CALLER/ORIGIN each "
                  "entered frame logs are compared with the python rendering of Foundry's meaning and with the extracted model; corpus + exhaustive sequences to length 4/5 over an "
